@@ -414,6 +414,16 @@ def _lin(t, bits):
             if a == (1, 1, 0):
                 return (1, b[2], 0)
         raise Undecided("arith %s" % op)
+    if k == "field" and t[2] == 0 and t[1][0] == "variant" and t[1][2] in ("Continue", "Some", "Ok"):
+        # payload of `x.checked_mul(c)?` / `.ok_or(..)?`: the product itself (overflow = rejection, handled by the caller)
+        inner = t[1][1]
+        while inner[0] == "call" and (inner[1].endswith("Try>::branch") or inner[1].endswith("::ok_or")):
+            inner = inner[3][0]
+        if inner[0] == "call" and inner[1].endswith("::checked_mul"):
+            return _lin(("bin", "Mul", inner[3][0], inner[3][1]), bits)
+        if inner[0] == "call" and inner[1].endswith("::checked_add"):
+            return _lin(("bin", "Add", inner[3][0], inner[3][1]), bits)
+        raise Undecided("payload of %s" % show(inner, maxd=3))
     if k == "field" and t[1][0] == "call" and t[1][1].endswith("load_store::bit_position") and t[2] == 0:
         # byte index of bit_position (its table is checked by R11.5): index / (8 / bpp)
         return (1, 8 // bits, 0)
@@ -513,6 +523,16 @@ def check_slots(prog, rep, impls):
             tree = ex.inline(ex.ret(f), only=lambda p: "load_store" in p)
             # the selected slot is the subject of the outermost map/ok_or chain
             subj = tree
+            if subj[0] == "phi":
+                # alternatives that reject because `index * N` overflows usize (checked_mul(..)?) select nothing:
+                # such an index needs more than usize::MAX bytes, i.e. more than any buffer holds
+                rest = []
+                for alt in subj[1]:
+                    rej = alt[0] == "call" and alt[1].endswith("from_residual") and any(n[0] == "call" and n[1].endswith(("::checked_mul", "::checked_add")) for n in walk(alt))
+                    if not rej:
+                        rest.append(alt)
+                if len(rest) == 1:
+                    subj = rest[0]
             while True:
                 if subj[0] == "comb" and subj[1] in ("map", "inspect"):
                     subj = subj[2]
